@@ -493,6 +493,17 @@ class ExcAnalysis:
                     if (isinstance(cond.ops[0], ast.In) and pol) or (isinstance(cond.ops[0], ast.NotIn) and not pol):
                         ob(n, 'subscript', 'KeyError', text, discharged='membership test dominates the lookup')
                         return
+            # ensured entry: an earlier statement on every path to here stores the key - `d[k] = v`, possibly under
+            # `if k not in d:` (the memo idiom: absent -> stored, present -> present)
+            for st in self.flow.dominating_stmts(n):
+                stores = [st] if isinstance(st, ast.Assign) else \
+                    ([x for x in st.body if isinstance(x, ast.Assign)] if isinstance(st, ast.If) and not st.orelse and
+                     isinstance(st.test, ast.Compare) and len(st.test.ops) == 1 and isinstance(st.test.ops[0], ast.NotIn) and
+                     same_expr(st.test.left, idx) and same_expr(st.test.comparators[0], recv) else [])
+                for a in stores:
+                    if any(isinstance(t, ast.Subscript) and same_expr(t.value, recv) and same_expr(t.slice, idx) for t in a.targets):
+                        ob(n, 'subscript', 'KeyError', text, discharged='the key is stored on every path before the lookup')
+                        return
             ob(n, 'subscript', 'KeyError' if rt[0] == 'dict' else 'LookupError', text + ' without a dominating membership test')
             return
         if rt[0] == 'tuple' and idx_val is not None and rt[1]:
